@@ -3,4 +3,5 @@ pub mod gen_expr;
 pub mod props;
 pub mod refeval;
 pub mod refval;
+pub mod smtref;
 pub mod tape;
